@@ -134,6 +134,49 @@ def C08(ctx):
             cases.append(cvn_case(pool, s, "arpc", (R.randbytes(8), atc, un, R.randbytes(2), R.randbytes(4), None), "cvn same object/ATC, varying UN"))
             arqc = R.randbytes(8)
             cases.append(cvn_case(pool, s, "mac", (R.randbytes(5), arqc, atc, b""), "cvn same object/ATC, varying ARQC"))
+    # option B cards whose SHA-1 needs the decimalisation table (searched), through every method
+    rare, _, _ = rare_pairs(ctx.sub("rare"), ctx.n(12, 80), letters_needed=True)
+    for (rp, rs) in rare[: ctx.n(20, 120)]:
+        for c in ("VisaCVN18", "VisaCVN22"):
+            s = (c, (g.key(), g.key(), g.key()), g.form(rp), g.form(rs))
+            cases.append(cvn_case(pool, s, "keys", None, "cvn option B rare branch"))
+            cases.append(cvn_case(pool, s, "mac", (R.randbytes(5), R.randbytes(8), R.randbytes(2), b""), "cvn option B rare branch"))
+    # one object, the ATC handed over as one bytearray that the caller updates in place between calls
+    for c in CLS:
+        s = pool.spec(c)
+        buf = bytearray(2)
+        for i in list(range(1, 5)) + [0x100, 0x101]:
+            atc = i.to_bytes(2, "big"); un = R.randbytes(4)
+            f = [R.randbytes(6), R.randbytes(6), R.randbytes(2), R.randbytes(5), R.randbytes(2), R.randbytes(3), R.randbytes(1), un, R.randbytes(2), atc]
+            tail = R.randbytes(8); cnt = R.randbytes(8)
+            base = cvn_case(pool, s, "ac", (f, tail, cnt), "cvn ATC in a reused bytearray")
+            def call(atc=atc, f=f, tail=tail, cnt=cnt, s=s, c=c):
+                buf[:] = atc
+                o = pool.obj(s)
+                args = f[:9] + [buf, tail] + ([cnt] if c in HAS_COUNTERS else [])
+                return o.generate_ac(*args)
+            base.call = call
+            cases.append(base)
+            arqc = R.randbytes(8)
+            b2 = cvn_case(pool, s, "mac", (R.randbytes(5), arqc, atc, b""), "cvn ATC in a reused bytearray")
+            if c != "InteracCVN133":
+                hdr = bytes.fromhex(b2.line.split()[8]) if b2.line.split()[8] != "." else b""
+                def call2(atc=atc, arqc=arqc, hdr=hdr, s=s):
+                    buf[:] = atc
+                    return pool.obj(s).generate_command_mac(hdr, arqc, buf, b"")
+                b2.call = call2
+            cases.append(b2)
+    # the same six ATC||UN bytes cut at every position (a cache keyed on their concatenation)
+    for c in ("InteracCVN133", "MasterCardCVN16", "MasterCardCVN17"):
+        for _ in range(ctx.n(6, 40)):
+            s = pool.spec(c); six = R.randbytes(6)
+            fixed = [R.randbytes(6), R.randbytes(6), R.randbytes(2), R.randbytes(5), R.randbytes(2), R.randbytes(3), R.randbytes(1)]
+            t82 = R.randbytes(2); tail = R.randbytes(8); cnt = R.randbytes(8)
+            cuts = list(range(0, 7)); R.shuffle(cuts)
+            for cut in cuts + [2]:
+                atc, un = six[:cut], six[cut:]
+                f = fixed + [un, t82, atc]
+                cases.append(cvn_case(pool, s, "ac", (f, tail, cnt), "cvn ATC||UN cut at every position"))
     ctx.run_cases(cases)
     ctx.extra["live_objects"] = len(pool.objs)
     # card side: Lc, MAC verification and PIN recovery with independently derived keys
@@ -273,6 +316,14 @@ def C11(ctx):
                 cases.append(op_cvc3(k, t, atc, un, gen=f"searched: value < {target}"))
                 break
     ctx.extra["cases_with_leading_zero"] = low
+    # two different keys with the same 3-byte key check value, same template (a cache indexed by a check value)
+    pair = g.kcv_colliding_pair()
+    ctx.extra["kcv_colliding_pair_found"] = pair is not None
+    if pair:
+        for t in tracks + [g.msg()]:
+            a, u = R.randbytes(2), R.randbytes(4)
+            for k in (pair[0], pair[1], pair[0]):
+                cases.append(op_cvc3(k, t, a, u, gen="keys with colliding check values"))
     for _ in range(ctx.n(300, 1500)):
         cases.append(op_cvc3(R.choice([g.key(), g.badkey()]), g.msg(), g.sized(2, .5), g.sized(4, .5), gen="malformed", proj="class"))
     ctx.run_cases(cases)
@@ -337,8 +388,30 @@ def key_ok(k):
     return isinstance(k, bytes) and len(k) == 16 and all(odd(b) for b in k)
 
 
+def cold_start(ctx, runs):
+    """first use of the library under thread contention / with the stack nearly exhausted (fresh interpreters)"""
+    import json as _json, subprocess, sys as _sys, os as _os
+    import core
+    script = _os.path.join(core.HERE, "coldstart.py")
+    ref = None
+    for i in range(runs):
+        for mode in ("threads", "stack"):
+            r = subprocess.run([_sys.executable, script, core.REPO, mode, str(ctx.seed)], capture_output=True, text=True, timeout=120)
+            if r.returncode != 0:
+                ctx.check("cold start", False, f"cold-start probe ({mode}) crashed: {r.stderr.strip()[-300:]}")
+                continue
+            o = _json.loads(r.stdout.strip().split("\n")[-1])
+            ctx.check("keys after a cold start are odd-parity keys", not o["problems"], "; ".join(o["problems"]) or "-")
+            if ref is None:
+                ref = o["values"]
+            ctx.check("results after a cold start equal those of any other start", o["values"] == ref,
+                      f"cold start ({mode}, run {i}) changed results of later calls")
+    ctx.extra["cold_start_runs"] = 2 * runs
+
+
 def C13(ctx):
     g = G(ctx.sub("g")); R = g.R
+    cold_start(ctx, ctx.n(6, 40))
     cases = []
     base = R.randbytes(16)
     for pos in range(16):
